@@ -68,8 +68,12 @@ func vxC05Storage() {
 	}
 	vx.Guard(s.index, s.mu, "client.Storage.index (persistent clients)")
 	vx.Guard(s.runtimeIndex, s.mu, "client.Storage.runtimeIndex (runtime clients)")
+	um := s.upstreamManager
+	umConfs := um.uidToCustomConf
+	vx.Guard(um, s.mu, "client.Storage.upstreamManager (custom upstream configurations)")
+	vx.Guard(umConfs, s.mu, "client.Storage.upstreamManager.uidToCustomConf")
 
-	switch vx.Choice("op", 15) {
+	switch vx.Choice("op", 16) {
 	case 0: // request path
 		setts := &filtering.Settings{}
 		s.ApplyClientFiltering("cid-a", ipA, setts)
@@ -100,8 +104,10 @@ func vxC05Storage() {
 		s.UpdateAddress(ctx, ipB, "host-b", &whois.Info{})
 	case 13:
 		s.RangeRuntime(func(rc *Runtime) bool { return true })
-	default:
+	case 14:
 		s.UpdateDHCP(ctx)
+	default: // admin path: POST /control/cache_clear (real upstreamManager.clearUpstreamCache)
+		s.ClearUpstreamCache()
 	}
 	if vx.GuardHits() > 0 {
 		vx.Reach("guarded-access")
